@@ -7,6 +7,7 @@
    index below 2^32 bytes — the index length is a u32 in the format).  The canonical encoder
    writes file after file; interleaved block streams are covered by FormatScan.scan_shapes and
    FormatWriterBridge.v.  No axioms. *)
+From MLA Require Import Limit.
 From MLA Require Import Base Stream Blocks RoundTripBlocks RoundTripWriter Format FormatProofs FormatScan.
 From Coq Require Import ZifyBool ZifyNat ZifyN.
 Open Scope N_scope.
@@ -71,6 +72,7 @@ Proof.
 Qed.
 
 Section Content.
+  Context {LIM : Limit}.
   Variable H : bytes -> bytes.
   Hypothesis HHlen : forall x, len (H x) = 32.
 
